@@ -198,8 +198,6 @@ def kind_of(cls_name, pname, pnames):
     return {"k": "act"}
   if pname == "mask":
     return {"k": "mask"}
-  if cls_name == "QConv2DBatchnorm" and pname == "data_format":
-    return {"k": "fixed", "v": "channels_last"}
   if pname.endswith("_quantizer"):
     slot = pname[:-len("_quantizer")]
     return {"k": "quant", "t": slot in TRAINABLE_SLOTS.get(cls_name, [])}
